@@ -38,10 +38,20 @@ class FnReport:
         self.vacuity = None
 
 
+def fn_budget_s():
+    """wall-clock budget for one function / relational target (exploration + discharge): a changed function can have
+    many more paths and undecidable obligations than the unchanged one; past the budget everything left is *undecided*"""
+    import os
+    return float(os.environ.get("PYVC_FN_BUDGET_S", "480"))
+
+
 def explore(ctx, body, max_paths=4000):
     work = [[]]
     results = []
+    t_start = time.time()
     while work:
+        if time.time() - t_start > fn_budget_s():
+            raise Unsupported("exploration budget of %.0f s exhausted after %d paths" % (fn_budget_s(), len(results)))
         prefix = work.pop()
         run = X.Run(ctx, prefix)
         it = X.Interp(run)
@@ -269,7 +279,11 @@ def verify_function(make_ctx, reg, qualname, timeout_ms=10000, both=False):
                 # an obligation that failed earlier on this path is not assumed by the later ones: every clause is
                 # judged on its own, so a failure tagged for one property cannot mask one tagged for another
                 ob.pc = [p_ for p_ in ob.pc if not any(p_ is g for g in bad_goals)]
-            smt.discharge(ob, ctx.facts, timeout_ms=timeout_ms, both=both, small_terms=getattr(run, "size_terms", ()))
+            if time.time() - t0 > fn_budget_s():
+                ob.verdict, ob.backend, ob.time, ob.model = "undecided", "none", 0.0, None
+                ob.note = "function budget of %.0f s exhausted before this obligation was attempted" % fn_budget_s()
+            else:
+                smt.discharge(ob, ctx.facts, timeout_ms=timeout_ms, both=both, small_terms=getattr(run, "size_terms", ()))
             if ob.verdict != "proved":
                 bad_goals.append(ob.goal)
             if ob.verdict == "refuted":
